@@ -17,6 +17,7 @@ class C26(core.Check):
     thorough_budget_s = 900
     chunk = 150
     hang_clause = 'C26.6'
+    crash_clause = 'C26.3'
     rule = ('one run = seeded workload (2-4 threads x 1-3 init_once calls over 1-3 tag classes, '
             '1-2 FFI objects, initializers that yield/raise/nest, hostile tag __hash__/__eq__) '
             'executed under a seeded schedule (uniform / sticky / PCT) with pre-emption at every '
@@ -139,7 +140,7 @@ class C26(core.Check):
             ffis = [self.backend.FFI() for _ in range(case['nffi'])]
 
         class Sentinel(object):
-            __slots__ = ('n',)
+            __slots__ = ('n', '__weakref__')
 
             def __init__(self, n):
                 self.n = n
@@ -236,6 +237,8 @@ class C26(core.Check):
         if verdict == 'stepcap':
             return out.harness('step cap reached')
         self._oracle(case, events, verdict, sched, out)
+        if out.verdict == 'ok' and verdict == 'done':
+            self._cache_keeps_result(case, events, ffis, Tag, out)
         # probes / faults
         if impl == 'c':
             cont = self.hook.contended
@@ -257,6 +260,37 @@ class C26(core.Check):
                           switches=sched.switches,
                           trace_head=['%d:%s' % t for t in sched.trace[:40]])
         return out
+
+    def _cache_keeps_result(self, case, events, ffis, Tag, out):
+        """after the schedule: the completed result must stay THE result -- the cache owns a reference
+        of its own (a call that hands out a borrowed reference frees the cached object as soon as the
+        callers drop theirs), and a later call returns that very object without running f"""
+        import weakref, gc
+        done = {}
+        for ev in events:
+            if ev[0] == 'f_ok':
+                try:
+                    done[ev[2]] = weakref.ref(ev[4])
+                except TypeError:
+                    pass                   # None / False / tuples cannot be weakly referenced
+        if not done:
+            return
+        del events[:]                      # drops every reference the callers and the harness held
+        gc.collect()
+        for key in sorted(done):
+            wr = done[key]
+            if wr() is None:
+                out.violate('C26.3', 'the completed result for %r was freed although it is still cached: a call '
+                            'handed out a reference it did not own' % (key,), None)
+                return
+            ran = []
+            tag = Tag(key[1]) if case['hostile'] else 'tag%d' % key[1]
+            r = ffis[key[0]].init_once(lambda: ran.append(1) or object(), tag)
+            if ran or r is not wr():
+                out.violate('C26.3' if not ran else 'C26.4', 'a call made after all others returned %s'
+                            % ('ran its initializer again' if ran else 'did not return the completed result'), None)
+                return
+        out.probe('cached_result_survives_dropping_all_callers')
 
     def _shared_tag(self, case):
         seen = {}
